@@ -399,7 +399,8 @@ pub fn load(text: &str, code_base: u64) -> Result<Prog, LoadErr> {
                 fixups.push((ins.len(), ops[0].to_string(), line));
                 Ins::Jcc(cc, usize::MAX)
             }
-            m if !m.chars().all(|c| c.is_ascii_alphanumeric() || c == '.' || c == '_') => {
+            // (mnemonics of this assembler syntax are spelled with these characters only)
+            m if !m.chars().all(|c| c.is_ascii_lowercase() || c.is_ascii_digit()) => {
                 return Err(LoadErr::Text(Viol::new(Class::Text, format!("line {line}: `{t}` is neither an instruction nor a label nor a directive"))));
             }
             _ => return Err(bad("unknown mnemonic")),
